@@ -83,12 +83,12 @@ FINDINGS = {
                                 'product sample: ValueError in the generated Assemble statement; the unoptimised evaluation equals NumPy (root cause in the scope of C02)', True),
     'C07-empty-result-on-product-sample': ('a function array with a zero-length axis (a[2:1]) evaluated on a product sample (sx*sy) comes back with 0 points: '
                                            'shape (0, 0, ...) instead of (npoints, 0, ...); _Mul._bind reshapes with -1', True),
-    'C07-int-range-lost-in-rewrite': ('an integer numpy.stack / numpy.concatenate result (or an element of it) used as index (numpy.take, __getitem__) or as integer exponent builds but '
-                                      'fails with AssertionError at evaluation: the simplifier / optimiser rewrites the operand into a form with a wider inferred integer range '
-                                      '(evaluable.Assemble has no _intbounds_impl -> (-inf, inf); Take of Inflate -> Sum over a length bounded by (0, inf)) and re-runs the range '
-                                      'assertion of NormDim / Power on it', True),
-    'C07-choose-bool-selector': ('numpy.choose(f > 0, [a, b]) with a boolean selector builds but evaluation raises AssertionError (evaluable.Choose demands an int index); '
-                                 'corner switched off pending a decision: the where-like cases use (f > 0) * 1', False),
+    'C07-assemble-intbounds-missing': ('an integer numpy.stack / numpy.concatenate result used as index (numpy.take, __getitem__) or as integer exponent failed with '
+                                       'AssertionError in the optimisation pass: evaluable.Assemble had no _intbounds_impl, so its inferred range was (-inf, inf)', True),
+    'C07-int-range-lost-in-rewrite': ('an ELEMENT of an integer numpy.stack / numpy.concatenate result (stack(...)[:, -1], numpy.take(stack, k, axis)) used as index or as integer '
+                                      'exponent builds but fails with AssertionError at evaluation: Inflate._take rewrites it into a Sum over a length bounded by (0, inf), and the '
+                                      'range assertion of NormDim / Power is re-run on the widened operand', True),
+    'C07-choose-bool-selector': ('numpy.choose(f > 0, [a, b]) with a boolean selector built but evaluation raised AssertionError (evaluable.Choose demands an int index)', True),
     'C07-cross-int-float': ('numpy.cross of two integer function arrays has dtype float (float Levi-Civita symbol); NumPy gives int', True),
 }
 
@@ -143,9 +143,15 @@ def classify(prog, monitor, nodeid, detail=''):
         return None
     op, params = s['op'], s['params']
     scattered = lambda t: t.get('op') in ('stack', 'concatenate') or (t.get('leaf') == 'topo' and 'ivec' in t['name'])     # X.ivec is a numpy.stack
-    if monitor.startswith('evaluation failed') and 'AssertionError' in detail and op in ('power', 'take', 'getitem') \
-            and any(scattered(byid[a]) for r in s['args'][1:] for a in ({r} | _ancestors(prog, r)) if a in byid):
-        return 'C07-int-range-lost-in-rewrite'      # integer exponent / index derived from a scattered (stack, concatenate) integer array
+    if monitor.startswith('evaluation failed') and 'AssertionError' in detail and op in ('power', 'take', 'getitem'):
+        # the integer exponent / index operands (everything but the base / the indexed array) and what they are made of
+        sub = [byid[a] for r in s['args'][1:] for a in ({r} | _ancestors(prog, r)) if a in byid]
+        # element-of-stack mechanism: somewhere below the index / exponent a take or __getitem__ extracts from a scattered integer array
+        element = any(t.get('op') in ('take', 'getitem') and any(scattered(byid[a]) for a in ({t['args'][0]} | _ancestors(prog, t['args'][0])) if a in byid) for t in sub)
+        if element:
+            return 'C07-int-range-lost-in-rewrite'
+        if any(scattered(t) for t in sub):
+            return 'C07-assemble-intbounds-missing'
     if monitor.endswith('(optimised code only)'):
         return 'C07-optimized-mode-only'
     if op == 'choose' and monitor == 'evaluation failed' and _kind_of(prog, byid[s['args'][0]]) == 'b':
@@ -668,24 +674,39 @@ def repro_empty_product():
     return r.shape != (smp.npoints, 0, 2), f'(sx*sy).eval(empty (0,2) function array).shape == {r.shape}, expected {(smp.npoints, 0, 2)}'
 
 
-def repro_assemble_range():
+def _range_witnesses(which):
     numpy, function = _setup()
     A = function.Array.cast
+    W = {
+        1: ('numpy.take(arange(20), numpy.stack([[-1,-2,-3],[-4,-5,-6]]))', lambda: numpy.take(A(numpy.arange(20)), numpy.stack([A(numpy.array([-1, -2, -3])), numpy.array([-4, -5, -6])])),
+            numpy.arange(20)[numpy.array([[-1, -2, -3], [-4, -5, -6]])]),
+        2: ('numpy.power([2,3,4], numpy.concatenate([[1,2],[0]]))', lambda: numpy.power(A(numpy.array([2, 3, 4])), numpy.concatenate([A(numpy.array([1, 2])), numpy.array([0])])),
+            numpy.array([2, 9, 1])),
+        3: ('numpy.take(arange(40), numpy.stack([[1,2],[3,4],[5,6]], 1)[:, -1])', lambda: numpy.take(A(numpy.arange(40)), numpy.stack([A(numpy.array([1, 2])), numpy.array([3, 4]), numpy.array([5, 6])], 1)[:, -1]),
+            numpy.array([5, 6])),
+        4: ('numpy.power([2,3], numpy.take(numpy.concatenate([[1,2],[0,3]]), [0,-1]))', lambda: numpy.power(A(numpy.array([2, 3])), numpy.take(numpy.concatenate([A(numpy.array([1, 2])), numpy.array([0, 3])]), numpy.array([0, -1]))),
+            numpy.array([2, 27])),
+    }
     out = []
-    for label, build, expect in (
-            ('numpy.take(arange(20), numpy.stack([[-1,-2,-3],[-4,-5,-6]]))', lambda: numpy.take(A(numpy.arange(20)), numpy.stack([A(numpy.array([-1, -2, -3])), numpy.array([-4, -5, -6])])),
-             numpy.arange(20)[numpy.array([[-1, -2, -3], [-4, -5, -6]])]),
-            ('numpy.power([2,3,4], numpy.concatenate([[1,2],[0]]))', lambda: numpy.power(A(numpy.array([2, 3, 4])), numpy.concatenate([A(numpy.array([1, 2])), numpy.array([0])])),
-             numpy.array([2, 9, 1])),
-            ('numpy.take(arange(40), numpy.stack([[1,2],[3,4],[5,6]], 1)[:, -1])', lambda: numpy.take(A(numpy.arange(40)), numpy.stack([A(numpy.array([1, 2])), numpy.array([3, 4]), numpy.array([5, 6])], 1)[:, -1]),
-             numpy.array([5, 6]))):
+    for k in which:
+        label, build, expect = W[k]
         try:
             r = function.eval(build())
             if r.shape != expect.shape or (r != expect).any():
                 out.append(f'{label} = {r.tolist()}, numpy {expect.tolist()}')
         except Exception as e:
             out.append(f'{label} raises {type(e).__name__} at evaluation')
-    return bool(out), '; '.join(out) or 'stack/concatenate results are usable as index and as integer exponent'
+    return out
+
+
+def repro_assemble_intbounds():
+    out = _range_witnesses([1, 2])
+    return bool(out), '; '.join(out) or 'integer stack/concatenate results are usable as index and as integer exponent'
+
+
+def repro_int_range_element():
+    out = _range_witnesses([3])
+    return bool(out), '; '.join(out) or 'an element of an integer stack is usable as index'
 
 
 def repro_choose_bool():
@@ -700,7 +721,8 @@ def repro_choose_bool():
 
 
 REPRODUCERS = {
-    'C07-int-range-lost-in-rewrite': repro_assemble_range,
+    'C07-assemble-intbounds-missing': repro_assemble_intbounds,
+    'C07-int-range-lost-in-rewrite': repro_int_range_element,
     'C07-choose-bool-selector': repro_choose_bool,
     'C07-empty-result-on-product-sample': repro_empty_product,
     'C07-optimized-mode-only': repro_optimized,
